@@ -11,8 +11,10 @@ use crate::views::*;
 use sliding_features::View;
 
 #[derive(Clone, Copy, Debug, PartialEq)]
-pub enum Tail { Constant, Alternating, Increasing, Decreasing }
-fn bounded_memory<T: Dom>(outer: VK, inner: Option<VK>, free: usize, tail: Tail, fill: usize) {
+pub enum Tail { Constant, Alternating, Increasing, Decreasing, /// every value twice, strictly decreasing from pair to pair (equal neighbours at every other step; the parity shifts the pairs)
+    StairsDown(usize), /// alternating sign, magnitude growing by a fixed step: the value leaving the window is never its extreme
+    GrowingOsc }
+fn bounded_memory<T: Dom>(outer: VK, inner: Option<VK>, free: usize, tail: Tail, fill: usize, total: usize) {
     let positive = outer.needs_positive() || inner.as_ref().map_or(false, |i| i.needs_positive());
     let name = match &inner { Some(i) => format!("{} over {}", outer.name(), i.name()), None => outer.name() };
     alloc::reset();
@@ -21,11 +23,13 @@ fn bounded_memory<T: Dom>(outer: VK, inner: Option<VK>, free: usize, tail: Tail,
     let p = if positive { "pos" } else { "" };
     let pos = |x: T| { if positive { T::assume(lt(T::zero(), x)); } x };
     let (a, b) = (pos(T::input(&format!("{p}a"))), pos(T::input(&format!("{p}b"))));
-    let total = 4 * fill;
+    let step = { let d = T::input("posstep"); T::assume(lt(T::zero(), d)); d };
     let mut peak_during_fill = 0i64;
     let mut prev = a;
     for t in 0..total {
-        let x = if t < free { pos(T::input(&format!("{p}x{t}"))) } else { match tail { Tail::Constant => a, Tail::Alternating => if t % 2 == 0 { a } else { b }, Tail::Increasing => { let d = T::input(&format!("posd{t}")); T::assume(lt(T::zero(), d)); prev + d } Tail::Decreasing => { let d = T::input(&format!("posd{t}")); T::assume(lt(T::zero(), d)); if positive { prev / (T::one() + d) } else { prev - d } } } };
+        let x = if t < free { pos(T::input(&format!("{p}x{t}"))) } else { match tail { Tail::Constant => a, Tail::Alternating => if t % 2 == 0 { a } else { b }, Tail::Increasing => { let d = T::input(&format!("posd{t}")); T::assume(lt(T::zero(), d)); prev + d } Tail::Decreasing => { let d = T::input(&format!("posd{t}")); T::assume(lt(T::zero(), d)); if positive { prev / (T::one() + d) } else { prev - d } }
+            Tail::StairsDown(par) => a - step * T::u((t + par) / 2),
+            Tail::GrowingOsc => { let m = b * b + T::one() + step * T::u(t); if t % 2 == 0 { m } else { -m } } } };
         prev = x;
         alloc::track(|| { v.update(x); let _ = v.last(); });
         let live = alloc::live();
@@ -55,15 +59,28 @@ pub fn units(tier: Tier, seed: u64) -> Vec<Unit> {
             // views whose comparisons are nonlinear in the inputs: follow the comparison path of a pseudo-random sample (concolic)
             let nonlinear = matches!(vk, VK::TrendFlex(_) | VK::ReFlex(_) | VK::CTI(_) | VK::PFE(..) | VK::WelfordOnline(_) | VK::Vst(_) | VK::Vsct(_) | VK::WelfordRolling | VK::EFT(..) | VK::Drawdown | VK::LnReturn | VK::Rsi(_) | VK::MyRSI(_) | VK::CoG(_) | VK::Roc(_));
             for tail in tails {
-                if !nonlinear || n <= 2 { u.push(unit!(format!("C18/{}/free={free}/tail={tail:?}/total={}", vk.name(), 4 * fill), bounded_memory(vk.clone(), None, free, tail, fill))); }
-                if nonlinear { let mut c = unit!(format!("C18/{}/free={free}/tail={tail:?}/total={}/sample-path", vk.name(), 4 * fill), bounded_memory(vk.clone(), None, free, tail, fill)); c.concolic = Some(seed + 3); u.push(c); }
+                if !nonlinear || n <= 2 { u.push(unit!(format!("C18/{}/free={free}/tail={tail:?}/total={}", vk.name(), 4 * fill), bounded_memory(vk.clone(), None, free, tail, fill, 4 * fill))); }
+                if nonlinear { let mut c = unit!(format!("C18/{}/free={free}/tail={tail:?}/total={}/sample-path", vk.name(), 4 * fill), bounded_memory(vk.clone(), None, free, tail, fill, 4 * fill)); c.concolic = Some(seed + 3); u.push(c); }
             }
             // strictly monotone tails (every eviction removes an extremum; no value ever repeats), along a sampled path
             if n <= 8 { for tail in [Tail::Increasing, Tail::Decreasing] {
-                let mut c = unit!(format!("C18/{}/free=1/tail={tail:?}/total={}/sample-path", vk.name(), 4 * fill), bounded_memory(vk.clone(), None, 1usize, tail, fill)); c.concolic = Some(seed + 21); u.push(c);
+                let mut c = unit!(format!("C18/{}/free=1/tail={tail:?}/total={}/sample-path", vk.name(), 4 * fill), bounded_memory(vk.clone(), None, 1usize, tail, fill, 4 * fill)); c.concolic = Some(seed + 21); u.push(c);
             } }
         }
     }
+    // staircases (equal neighbours at every other step, ever new lows) at window lengths beyond 16, and a growing oscillation (the value
+    // leaving the window is never its extreme) over 800 updates at N = 3: both along a sampled comparison path
+    let first_shape = u.len();
+    for &n in &(if q { vec![3usize, 17, 20] } else { vec![3usize, 5, 17, 20, 33] }) {
+        for vk in crate::props::c15::raw_wrappers(n) {
+            if vk.is_leaf() || vk.needs_positive() || matches!(vk, VK::TrendFlex(_) | VK::ReFlex(_) | VK::LaguerreRSI(_) | VK::NET(_)) { continue; }
+            let wl = match &vk { VK::Roofing(a, b) => a + b + 1, VK::CyberCycle(a) => (*a).max(6), _ => n };
+            let fill = 2 * wl + 4;
+            for par in [0usize, 1] { u.push(unit!(format!("C18/{}/free=0/tail=StairsDown({par})/total={}/sample-path", vk.name(), 4 * fill), bounded_memory(vk.clone(), None, 0usize, Tail::StairsDown(par), fill, 4 * fill))); }
+            if n == 3 { u.push(unit!(format!("C18/{}/free=0/tail=GrowingOsc/total=800/sample-path", vk.name()), bounded_memory(vk.clone(), None, 0usize, Tail::GrowingOsc, fill, 800usize))); }
+        }
+    }
+    let n_shape = u.len() - first_shape;
     // seeded two-level chains
     let pool: Vec<VK> = crate::props::c15::raw_wrappers(2).into_iter().filter(|v| !v.is_leaf() && !matches!(v, VK::NET(_) | VK::EFT(..) | VK::HLNormalizer(_) | VK::PFE(..))).collect();
     let inner_pool: Vec<VK> = pool.iter().filter(|v| matches!(v, VK::Gte(_) | VK::Sma(_) | VK::Ema(_) | VK::Alma(_) | VK::Cumulative(_) | VK::SuperSmoother(_) | VK::LaguerreFilter(_) | VK::CyberCycle(_) | VK::Roofing(..) | VK::Min(_) | VK::Roc(_))).cloned().collect();
@@ -71,9 +88,10 @@ pub fn units(tier: Tier, seed: u64) -> Vec<Unit> {
     for _ in 0..(if q { 16 } else { 80 }) {
         let (o, i) = (pool[rng.below(pool.len())].clone(), inner_pool[rng.below(inner_pool.len())].clone());
         if o.needs_positive() || !seen.insert((o.name(), i.name())) { continue; }
-        u.push(unit!(format!("C18/{} over {}/free=1/tail=Alternating/total=64", o.name(), i.name()), bounded_memory(o.clone(), Some(i.clone()), 1usize, Tail::Alternating, 16usize)));
+        u.push(unit!(format!("C18/{} over {}/free=1/tail=Alternating/total=64", o.name(), i.name()), bounded_memory(o.clone(), Some(i.clone()), 1usize, Tail::Alternating, 16usize, 64usize)));
     }
     for x in u.iter_mut() { x.path_cap = if q { 400 } else { 4000 }; x.budget_s = if q { 6.0 } else { 60.0 }; x.branch_nl_timeout_ms = Some(300); x.max_decisions = 60000; }
+    for x in u.iter_mut().skip(first_shape).take(n_shape) { x.concolic = Some(seed + 51); x.budget_s = 20.0; x.max_decisions = 400000; }
     u
 }
 pub fn meta() -> Meta {
